@@ -56,6 +56,8 @@ CANARIES = [
     ('plan_sse', 'S', r'let inner_len_factor3 = inner_len_pow2 / 4 \* 3;', 'let inner_len_factor3 = inner_len_pow2 * 3;', 'design_prime'),
     ('dft', 'S', r'vec!\[Complex::zero\(\); this\.get_inplace_scratch_len\(\)\]', 'vec![Complex::zero(); this.get_outofplace_scratch_len()]', 'verif_fft_process'),
     ('dft', 'P', r'this\.process_with_scratch\(buffer, &mut scratch\);', 'if buffer.len() > 1 { this.process_with_scratch(buffer, &mut scratch); }', 'verif_fft_process'),
+    ('plan_sse', 'S', r'13 => verif_arc_dyn\(SseF32Butterfly13::new\(direction\)\)', '13 => verif_arc_dyn(SseF32Butterfly17::new(direction))', 'construct_prime_butterfly'),
+    ('plan_sse', 'S', r'&\[7, 11, 13, 17, 19, 23, 29, 31, \]', '&[7, 11, 13, 17, 19, 23, 29, 37, ]', 'prime_butterfly_lens'),
     ('plan_sse', 'S', r'const MIN_RADIX4_BITS: u32 = 6;', 'const MIN_RADIX4_BITS: u32 = 1;', 'design_fft_with_factors'),
     ('plan_sse', 'S', r'let k = cross_bits / 2;', 'let k = cross_bits / 2 + 1;', 'design_radix4'),
     ('plan_sse', 'S', r'if left_len < 33 && right_len < 33 \{', 'if left_len < 34 && right_len < 34 {', 'design_mixed_radix'),
